@@ -142,7 +142,60 @@ def run_fallback(ctx):
     ctx.floor("fallback", "stores with load_latest_checkpoint compiled in this configuration", n, 2)
 
 
+def run_prune(ctx):
+    """(d) prune keeps the NEWEST `keep` checkpoints: list_checkpoints sorts the ids ascending and prune_checkpoints deletes a
+    prefix of that list of length len - keep (iter().take(n), not reversed / skipped)"""
+    from vpr import hirq as H
+    F = ctx.facts()
+    n = 0
+    for store in ("MemoryStore", "FileStore", "RocksDbStore"):
+        fn = impl_fn(F, store, "prune_checkpoints")
+        ls = impl_fn(F, store, "list_checkpoints")
+        if not fn or not ls:
+            continue  # RocksDbStore exists only with the `persistence` feature
+        n += 1
+        h = ctx.need_hir(fn, rule="prune-oldest")
+        lh = ctx.need_hir(ls, rule="prune-oldest")
+        sorts = [x["method"] for x in H.walk(lh["body"]) if x.get("k") == "mcall" and x["method"].startswith("sort")]
+        revs = [x["method"] for x in H.walk(lh["body"]) if x.get("k") == "mcall" and x["method"] in ("reverse", "rev")]
+        if sorts and all(m in ("sort", "sort_unstable") for m in sorts) and not revs:
+            ctx.ok("prune-oldest", store + ":list-ascending", "ids sorted ascending")
+        else:
+            ctx.violation("prune-oldest", store + ":list-ascending", "%s::list_checkpoints does not return the ids in plain ascending order (sort calls %s, reversals %s): prune and recovery both rely on `last = newest`" % (store, sorts, revs), site=lh["span"])
+        loops = [x for x in H.walk(h["body"]) if x.get("k") == "for"]
+        if not loops:
+            ctx.anchor_lost("prune-oldest", "%s::prune_checkpoints has no loop over the ids to delete" % store)
+            continue
+        it = loops[0]["iter"]
+        chain = []
+        e = H.strip(it)
+        while e is not None and e.get("k") == "mcall":
+            chain.append(e)
+            e = H.strip(e["recv"])
+        methods = [c["method"] for c in reversed(chain)]
+        bad = [m for m in methods if m not in ("iter", "into_iter", "take", "cloned", "copied")]
+        takes = [c for c in chain if c["method"] == "take"]
+        if bad or len(takes) != 1:
+            ctx.violation("prune-oldest", store + ":prefix", "%s::prune_checkpoints walks the ascending id list with `%s`: it must delete the first len - keep ids (`.iter().take(n)`); reversing or skipping deletes newer checkpoints and keeps older ones, so recovery after a restart returns an old state" % (store, ".".join(methods)), site=loops[0]["sp"])
+            continue
+        # n = len.saturating_sub(keep)
+        arg = H.strip(takes[0]["args"][0])
+        init = arg
+        nm = H.local_name(arg) if arg.get("k") == "path" else None
+        if nm:
+            ins = [s_ for s_ in H.lets(h["body"]) if s_["pat"]["k"] == "bind" and s_["pat"]["name"] == nm and s_.get("init") is not None]
+            if len(ins) == 1:
+                init = H.strip(ins[0]["init"])
+        txt = H.show(init)
+        if init.get("k") == "mcall" and init["method"] == "saturating_sub" and "len()" in H.show(init["recv"]) and any(z.get("k") == "path" and "local:keep#" in str(z.get("res", "")) for z in H.walk(init["args"][0])) and not any(z.get("k") == "bin" for z in H.walk(init["args"][0])):
+            ctx.ok("prune-oldest", store + ":prefix", "deletes the first len - keep ids", site=loops[0]["sp"])
+        else:
+            ctx.violation("prune-oldest", store + ":prefix", "%s::prune_checkpoints deletes `%s` ids, not len - keep" % (store, txt[:60]), site=loops[0]["sp"])
+    ctx.floor("prune-oldest", "stores with prune_checkpoints", n, 2)
+
+
 def run(ctx):
     ctx.guard("atomic-write", lambda: run_put(ctx))
     ctx.guard("save-prune-id", lambda: run_manager(ctx))
     ctx.guard("fallback", lambda: run_fallback(ctx))
+    ctx.guard("prune-oldest", lambda: run_prune(ctx))
